@@ -591,7 +591,11 @@ class TimeModule:
         return None
 
     def __getattr__(self, name):
-        return getattr(_time, name)
+        if name.startswith("__"):
+            raise AttributeError(name)
+        if not E.active():
+            return getattr(_time, name)
+        raise Unsupported("time.%s is not modelled (it would read the real clock or zone)" % name)
 
 
 def _bt(b):
@@ -671,6 +675,11 @@ class STime:
 
     def _secs(self):
         return (self.hour * 60 + self.minute) * 60 + self.second
+
+    def replace(self, **kw):
+        if kw.get("microsecond", 0):
+            raise Unsupported("microseconds")
+        return STime(kw.get("hour", self.hour), kw.get("minute", self.minute), kw.get("second", self.second))
 
     def isoformat(self, timespec="auto"):
         if timespec != "auto":
@@ -843,8 +852,30 @@ class SDateTime:
         d, h, m, s = self._fields()
         return _render(fmt, SStructTime(d, h, m, s))
 
+    def timetuple(self):
+        d, h, m, s = self._fields()
+        return SStructTime(d, h, m, s)
+
+    def date(self):
+        return SDate(self._fields()[0])
+
+    def replace(self, **kw):
+        d, h, m, s = self._fields()
+        if set(kw) - {"hour", "minute", "second", "microsecond"}:
+            raise Unsupported("datetime.replace of date fields")
+        if kw.get("microsecond", 0):
+            raise Unsupported("microseconds")
+        h, m, s = kw.get("hour", h), kw.get("minute", m), kw.get("second", s)
+        return SDateTime(((d * 24 + h) * 60 + m) * 60 + s, h=h, m=m, s=s, day=d)
+
+    def __sym_format__(self, spec):
+        if not spec:
+            raise Unsupported("str() of a symbolic datetime")
+        return self.strftime(spec)
+
     def timestamp(self):
-        raise Unsupported("datetime.timestamp() of a naive symbolic datetime")
+        # naive datetime -> local time: the instant t with t + off(t) = these wall-clock seconds
+        return TIME.mktime(self.timetuple())
 
     def _shift(self, d):
         return SDateTime(self.off + d, base=self._base)
@@ -894,6 +925,38 @@ class SDateTime:
 
     def __hash__(self):
         raise Unsupported("hash of symbolic datetime")
+
+
+class SDate:
+    """datetime.date proxy: a (symbolic) day number"""
+
+    def __init__(self, day):
+        self.day = day
+
+    def strftime(self, fmt):
+        return _render(fmt, SStructTime(self.day, 0, 0, 0))
+
+    def __sym_format__(self, spec):
+        if not spec:
+            raise Unsupported("str() of a symbolic date")
+        return self.strftime(spec)
+
+    def weekday(self):
+        return env().weekday_of_day(self.day)
+
+    def isoweekday(self):
+        return self.weekday() + 1
+
+    def timetuple(self):
+        return SStructTime(self.day, 0, 0, 0)
+
+    def __hash__(self):
+        raise Unsupported("hash of symbolic date")
+
+    def __eq__(self, o):
+        if isinstance(o, SDate):
+            return i_eq(self.day, o.day)
+        return False
 
 
 class _DTMeta(type):
@@ -950,6 +1013,9 @@ class SDateTimeClass(metaclass=_DTMeta):
                 raise TypeError("strptime() argument 1 must be str, not bytes")
             h, m = _parse_hm(list(s.items))
             return SDateTime(h * 3600 + m * 60, h=h, m=m, s=0, day=EPOCH_1900 // DAY, base=EPOCH_1900)
+        if fmt in ("%d/%m/%Y %H:%M", "%d/%m/%Y"):
+            st = TIME.strptime(s, fmt)
+            return SDateTime(((st.day * 24 + st.tm_hour) * 60 + st.tm_min) * 60, h=st.tm_hour, m=st.tm_min, s=0, day=st.day)
         raise Unsupported("datetime.strptime format %r" % fmt)
 
     @staticmethod
@@ -999,11 +1065,42 @@ class STimeClass(metaclass=_DTMeta):
         return _dt.time(*a, **k)
 
 
+class SDateClass(metaclass=_DTMeta):
+    _proxy = SDate
+    _real = _dt.date
+
+    def __new__(cls, *a, **k):
+        if any(is_sym(x) for x in a) or any(is_sym(x) for x in k.values()):
+            raise Unsupported("date(...) with symbolic fields")
+        return _dt.date(*a, **k)
+
+    @staticmethod
+    def today():
+        if not E.active():
+            return _dt.date.today()
+        te = env()
+        t = te.now()
+        te.need_zone()
+        te.path.assume(_bt(te.in_window(t)))
+        day = te.decomp(t + te.off(t), "loc")[0]
+        return SDate(day)
+
+    @staticmethod
+    def fromtimestamp(t):
+        if not is_sym(t) and not isinstance(t, FL.SymFloat):
+            return _dt.date.fromtimestamp(t)
+        if isinstance(t, FL.FInt):
+            t = t.n
+        te = env()
+        te.path.assume(_bt(te.in_window(t)))
+        return SDate(te.decomp(t + te.off(t), "loc")[0])
+
+
 class _DatetimeModule:
     datetime = SDateTimeClass
     timedelta = STimedeltaClass
     time = STimeClass
-    date = _dt.date
+    date = SDateClass
     timezone = _dt.timezone
     MINYEAR = _dt.MINYEAR
     MAXYEAR = _dt.MAXYEAR
